@@ -33,6 +33,21 @@ theorem riS_inv : ∀ d, d < riS.sp.size - 1 → SubRightInv A2 riS.tx riS.tp ri
   interval_cases d <;> interval_cases c <;> interval_cases c' <;>
     simp only [Finset.sum_range_succ, Finset.sum_range_zero] <;> decide +kernel
 
+/-- the same for the Hermitian matrix `[[2, i], [-i, 2]]`: inverse block `(1/3) [[2, -i], [i, 2]]` -/
+def riSC : Rec CRat := { sj := #[0, 1, 0, 1], sp := #[0, 2, 4], tp := #[0, 4, 8],
+                         tx := #[⟨2/3, 0⟩, ⟨0, -1/3⟩, ⟨0, 1/3⟩, ⟨2/3, 0⟩, ⟨2/3, 0⟩, ⟨0, -1/3⟩, ⟨0, 1/3⟩, ⟨2/3, 0⟩] }
+
+theorem riSC_ok : schwarzRecOK CEx.A2.n riSC = true := by decide +kernel
+
+theorem riSC_inv : ∀ d, d < riSC.sp.size - 1 → SubRightInv CEx.A2 riSC.tx riSC.tp riSC.sj riSC.sp d := by
+  intro d hd
+  have hd2 : d < 2 := hd
+  have hsz : ∀ d, d < 2 → sSize riSC.sp d = 2 := by intro d hd; interval_cases d <;> decide +kernel
+  intro c hc c' hc'
+  rw [hsz d hd2] at hc hc' ⊢
+  interval_cases d <;> interval_cases c <;> interval_cases c' <;>
+    simp only [Finset.sum_range_succ, Finset.sum_range_zero] <;> decide +kernel
+
 /-! ### block storage -/
 
 /-- the 1-D Poisson matrix of size 4 stored in 2x2 blocks (all four blocks stored), as the arrays of the C16 model -/
@@ -81,7 +96,7 @@ symmetry, positive semidefiniteness and the solution `(1,1)` of `A x = (1,1)` fo
 * chebyshev: `chebCoeffs (1/3, -4/3, 1) = [-1/3, 4/3]`, eigenpairs `(1, (1,1))`, `(3, (1,-1))` of `A2`, orthogonal,
   spanning the first two coordinates, `|1 − λ p(λ)| = 0 ≤ 1`;
 * complex: `[[2, i], [-i, 2]]` is Hermitian positive semidefinite with stored diagonal `2`, and `x* = (1, 0)` solves
-  `A x* = (2, -i)`. -/
+  `A x* = (2, -i)`; the Schwarz record `riSC` (inverse block `(1/3) [[2, -i], [i, 2]]`) is admissible and exact. -/
 theorem relaxY_hyps_satisfiable :
     (schwarzRecOK A2.n riS = true ∧ ∀ d, d < riS.sp.size - 1 → SubRightInv A2 riS.tx riS.tp riS.sj riS.sp d) ∧
     (IsAdj (euc ℚ (B4.n * 2)) (euc ℚ (B4.n * 2)) (bsrOp (toB B4 2)) (bsrOp (toB B4 2)) ∧
@@ -101,9 +116,11 @@ theorem relaxY_hyps_satisfiable :
       (∀ w, 0 ≤ (cip (euc ℚ CEx.A2.n) (ccsrOp CEx.A2.n (rowOf CEx.A2) w) w).1) ∧
       (∀ i, i < CEx.A2.n → HasDiag i (rowOf CEx.A2 i) (⟨2, 0⟩ : CRat)) ∧
       ccsrOp CEx.A2.n (rowOf CEx.A2) ((fun i => if i = 0 then 1 else 0), (fun _ => 0)) =
-        toPair (fn (#[⟨2, 0⟩, ⟨0, -1⟩] : Array CRat))) := by
+        toPair (fn (#[⟨2, 0⟩, ⟨0, -1⟩] : Array CRat)) ∧
+      schwarzRecOK CEx.A2.n riSC = true ∧
+      ∀ d, d < riSC.sp.size - 1 → SubRightInv CEx.A2 riSC.tx riSC.tp riSC.sj riSC.sp d) := by
   refine ⟨⟨riS_ok, riS_inv⟩, ⟨?_, ?_, ?_, ?_, ?_, by decide +kernel, by simp [effOmega], B4_damping⟩,
-    ⟨by decide +kernel, A2_eig, ?_, ?_, ?_⟩, ⟨CEx.hermA, CEx.psdA, ?_, ?_⟩⟩
+    ⟨by decide +kernel, A2_eig, ?_, ?_, ?_⟩, ⟨CEx.hermA, CEx.psdA, ?_, ?_, riSC_ok, riSC_inv⟩⟩
   · rw [B4_op]; exact BEx.symA
   · rw [B4_op]; exact BEx.psdA
   · exact BEx.rightInv4
